@@ -82,6 +82,16 @@ def run(chk, repo):
     exist_guard = [g for g in guards if any(x in g for x in ("exists", "is_file", "isfile", " in mapper"))]
     chk.require(not exist_guard, "C09-X2", op.where(cc), "the cache write is not control-dependent on an existence test (a torn file is overwritten)",
                 f"the cache write is skipped when {exist_guard}: a torn cache file is never repaired", key="create_cache:unconditional")
+    # ... and neither is the call of create_cache on the open path
+    for ckey in op.g.callers(CREATE_CACHE):
+        if ckey not in op.reach:
+            continue
+        cfi = op.g.funcs[ckey]
+        for site in op.g.sites[(ckey, CREATE_CACHE)]:
+            gtxt = [norm(Flow(cfi).expand(t)) for t, pol in guards_of(site, cfi.node)]
+            bad_g = [g for g in gtxt if any(x in g for x in ("exists(", "is_file(", "isfile(", " in mapper", "local_cache_location", "remote_cache_location"))]
+            chk.require(not bad_g, "C09-X2", op.where(cfi), f"{short(site, 50)} is not skipped when a cache file already exists",
+                        f"create_cache is skipped when {bad_g}: an existing but torn cache file is never overwritten, so create_cache=True does not repair it", key=f"{cfi.key}:create-if-missing")
     mk = [e for e in effects.scan(repo, cc) if e.kind == "fs_write" and "mkdir" in e.detail]
     ok_mk = False
     for e in mk:
